@@ -107,16 +107,35 @@ def strip_lean_comments(src):
     return "".join(out)
 
 
-def grep_forbidden():
+def import_closure(roots):
+    """Lean files (relative to LEAN) reachable through `import Gobptree…` from the given modules."""
+    seen, todo = set(), list(roots)
+    while todo:
+        m = todo.pop()
+        if m in seen:
+            continue
+        f = os.path.join(LEAN, *m.split(".")) + ".lean"
+        if not os.path.exists(f):
+            continue
+        seen.add(m)
+        for mm in re.finditer(r"^\s*import\s+((?:Gobptree|Main|CMain)[\w.]*)", open(f).read(), re.M):
+            todo.append(mm.group(1))
+    return sorted(os.path.join(*m.split(".")) + ".lean" for m in seen)
+
+
+def grep_forbidden(pid=None):
+    """Forbidden constructs in the sources the property's theorems and the two model drivers are
+    built from (the import closure of Props.<pid>, Main, CMain).  A work file that nothing imports
+    is not part of any proof and is not looked at (it caused a false alarm twice, DESIGN 14.5)."""
     hits = []
-    for root, _, files in os.walk(os.path.join(LEAN, "Gobptree")):
-        for fn in files:
-            if fn.endswith(".lean"):
-                p = os.path.join(root, fn)
-                body = strip_lean_comments(open(p).read())
-                body = re.sub(r'"(?:[^"\\]|\\.)*"', '""', body)
-                for m in FORBIDDEN.finditer(body):
-                    hits.append("%s: %s" % (os.path.relpath(p, LEAN), m.group(0).strip()))
+    roots = ["Main", "CMain"] + (["Gobptree.Props." + pid] if pid else
+                                 ["Gobptree.Props.C%02d" % i for i in range(1, 13)])
+    for rel in import_closure(roots):
+        p = os.path.join(LEAN, rel)
+        body = strip_lean_comments(open(p).read())
+        body = re.sub(r'"(?:[^"\\]|\\.)*"', '""', body)
+        for m in FORBIDDEN.finditer(body):
+            hits.append("%s: %s" % (rel, m.group(0).strip()))
     return hits
 
 
@@ -158,7 +177,7 @@ def proof_step(pid, bindir, extra_targets=()):
             problems.append("lake build failed for Props." + pid + ": " + " | ".join(errs))
             return dict(obligations=0, discharged=0, theorems={}, problems=problems, log=log)
         aud = audit_props(pid)
-    bad = grep_forbidden()
+    bad = grep_forbidden(pid)
     if bad:
         problems.append("forbidden constructs in Lean sources: " + "; ".join(bad[:6]))
     thms = aud["theorems"]
@@ -373,10 +392,13 @@ def write_evidence(pid, tier, level, coverage, wall, violations, assumptions):
     coverage = dict(coverage)
     if pid in EXPLANATIONS:
         coverage["explanation"] = EXPLANATIONS[pid]
-    os.makedirs(os.path.join(VERIF, "evidence"), exist_ok=True)
+    # evidence/ describes runs against /repo only; a run against another tree (seed-verify's
+    # scratch worktree, VERIF_REPO) writes to evidence-scratch/ (git-ignored)
+    evdir = "evidence" if os.path.realpath(REPO) == "/repo" else "evidence-scratch"
+    os.makedirs(os.path.join(VERIF, evdir), exist_ok=True)
     ev = dict(property_id=pid, tier=tier, seed=SEED, level=level, coverage=coverage,
               assumptions=assumptions, wall_s=round(wall, 2), violations=violations)
-    p = os.path.join(VERIF, "evidence", pid + ".json")
+    p = os.path.join(VERIF, evdir, pid + ".json")
     with open(p + ".tmp", "w") as f:
         json.dump(ev, f, indent=1, sort_keys=True)
     os.replace(p + ".tmp", p)
